@@ -100,8 +100,8 @@ def main():
         return 2
     P = props[prop]
     t0 = time.time()
-    evidence_path = os.path.join(vpenv.VERIF, 'evidence', f'{prop}.json')
-    replay_dir = os.path.join(vpenv.VERIF, 'replay')
+    evidence_path = os.path.join(os.environ.get('VERIF_EVIDENCE_DIR') or os.path.join(vpenv.VERIF, 'evidence'), f'{prop}.json')
+    replay_dir = os.environ.get('VERIF_REPLAY_DIR') or os.path.join(vpenv.VERIF, 'replay')
     scratch = vpenv.scratch_dir(f'verif-{prop}-')
     log = lambda *x: print('[check]', *x, file=sys.stderr, flush=True)
 
